@@ -78,6 +78,9 @@ InitThorough == InitQuick \cup
   { <<FSpec(1, 1, {<<"k1", 1>>, <<"k2", 1>>}, {}), FSpec(1, 2, {<<"k1", 2>>, <<"k2", 3>>}, {}),
       FSpec(2, 1, {<<"k1", 3>>, <<"k1", 1>>}, {<<"k1", 1>>})>>,
     <<FSpec(3, 4, {<<"k1", 1>>, <<"k1", 2>>, <<"k1", 3>>}, {<<"k1", 2>>})>> }
+InitFocus == { <<FSpec(1, 1, {<<"k1", 1>>, <<"k1", 2>>, <<"k2", 1>>}, {}), FSpec(2, 1, {<<"k1", 2>>, <<"k2", 2>>}, {})>> }
+InitMC    == InitFocus \cup { <<FSpec(1, 1, {<<"k1", 1>>, <<"k2", 1>>}, {<<"k2", 1>>}), FSpec(1, 2, {<<"k1", 1>>, <<"k1", 2>>}, {})>> }
+NewFocus  == { {<<"k1", 1>>, <<"k1", 2>>} }
 NewQuick    == { {<<"k1", 1>>, <<"k1", 2>>, <<"k2", 1>>}, {<<"k1", 2>>} }
 NewThorough == NewQuick \cup { {<<"k1", 3>>, <<"k2", 2>>}, {<<"k2", 1>>, <<"k2", 2>>, <<"k2", 3>>} }
 
@@ -235,7 +238,7 @@ Swap(fs, olds, news) ==
 ReplaceAtomic(olds, ch) ==
   /\ Budget /\ olds \subseteq DOMAIN files /\ ChoiceOK(olds, ch) /\ ReplaceOK(olds, Blocks(olds, ch))
   /\ LET bls  == Blocks(olds, ch)
-         news == (Len(files) + 1)..(Len(files) + Len(bls))
+         news == { Len(files) + j : j \in 1..Len(bls) }
          f1   == Renamed(AddNew(files, olds, bls), news)
          todo == SelectSeq(flist, LAMBDA i : i \in olds)
          f2   == Finish(ProcessSeq(f1, todo), olds, news)
@@ -250,7 +253,7 @@ ReplaceAtomic(olds, ch) ==
 RStart(olds, ch) ==
   /\ Budget /\ olds \subseteq DOMAIN files /\ ChoiceOK(olds, ch) /\ ReplaceOK(olds, Blocks(olds, ch)) /\ nstep < MaxStepwise
   /\ LET bls  == Blocks(olds, ch)
-         news == (Len(files) + 1)..(Len(files) + Len(bls))
+         news == { Len(files) + j : j \in 1..Len(bls) }
          f1   == Renamed(AddNew(files, olds, bls), news)
          r    == [pc |-> "renamed", olds |-> olds, news |-> news, todo |-> SelectSeq(flist, LAMBDA i : i \in olds)]
      IN /\ files' = f1 /\ rp' = r /\ nrep' = nrep + 1 /\ nstep' = nstep + 1
